@@ -282,7 +282,8 @@ class FlowIRExperimentConfiguration:
 
         system_vars = system_vars or {}
         config_patches = config_patches or {}
-        variable_files = list(set(variable_files or []))
+        # VV: keep the order in which the files were given (they are layered first to last), drop duplicates
+        variable_files = list(dict.fromkeys(variable_files or []))
 
         out_errors = []
         self.file_format = file_format
@@ -483,7 +484,8 @@ class FlowIRExperimentConfiguration:
 
         systemvars = systemvars or {}
         config_patches = config_patches or {}
-        variable_files = list(set(variable_files or []))
+        # VV: keep the order in which the files were given (they are layered first to last), drop duplicates
+        variable_files = list(dict.fromkeys(variable_files or []))
 
         out_errors = []
 
